@@ -59,6 +59,8 @@ structure NodeSpec where
   defining  : Bool := false
   code      : Bool := false
   attrs     : List AttrSpec := []
+  definingAsContext  : Bool := false
+  definingForContent : Bool := false
 deriving Repr, Inhabited, DecidableEq
 
 structure MarkSpec where
@@ -205,7 +207,9 @@ def compileNode (spec : Spec) (dfas : List Dfa) (i : Nat) (ns : NodeSpec) : Exce
         code := ns.code
         dfa := dfa
         markSet := ms
-        attrs := initAttrs ns.attrs }
+        attrs := initAttrs ns.attrs
+        definingAsContext := ns.definingAsContext
+        definingForContent := ns.definingForContent }
 
 /-! ### Mark types -/
 
